@@ -3,7 +3,7 @@
 Symbolic differential: both pipelines of the real classes run on the same symbolic X under one path condition and
 are compared cell by cell.
 """
-from harness import cls_ngram, cls_edgelist, cls_skipgram, C09_bpe, cls_cooc, cls_cooc_family
+from harness import cls_ngram, cls_edgelist, cls_skipgram, C09_bpe, cls_cooc, cls_cooc_family, cls_rowwise, C15_tree
 
 
 def cases(tier):
@@ -11,4 +11,6 @@ def cases(tier):
     cs += [c for c in C09_bpe.cases(tier) if c.name.startswith("bpe_e2e")]
     cs += cls_cooc.cases(tier, props=("C02",))
     cs += cls_cooc_family.cases(tier)      # multiset / timed / n-gram co-occurrence: differential without an oracle
+    cs += [c for c in cls_rowwise.cases(tier) if "row_denoise" in c.name]
+    cs += [c for c in C15_tree.cases(tier) if c.params.get("with_transform")]
     return cs
